@@ -23,8 +23,10 @@ inductive Ast where
   | select (id : NodeId) (child : Ast) (cols : List (Uid × ColMeta))     -- `Col` objects
   | rename (id : NodeId) (child : Ast) (map : List (String × String))
   | mutate (id : NodeId) (child : Ast) (names : List String) (values : List Expr) (uuids : List Uid)
+      (metas : List (Dtype × Ftype))   -- `_dtype` / `_ftype` cached on the value roots when the verb was called
   | filter (id : NodeId) (child : Ast) (preds : List Expr)
   | summarize (id : NodeId) (child : Ast) (names : List String) (values : List Expr) (uuids : List Uid)
+      (metas : List (Dtype × Ftype))
   | arrange (id : NodeId) (child : Ast) (ords : List Ord)
   | sliceHead (id : NodeId) (child : Ast) (n : Int) (offset : Int)
   | groupBy (id : NodeId) (child : Ast) (cols : List (Uid × ColMeta)) (add : Bool)
@@ -55,9 +57,9 @@ def name : Ast → String
 /-- expressions rooted at this verb (`iter_col_roots`) -/
 def colRoots : Ast → List Expr
   | select _ _ cols => cols.map (fun c => .col c.1 c.2.dtype c.2.ftype)
-  | mutate _ _ _ vals _ => vals
+  | mutate _ _ _ vals _ _ => vals
   | filter _ _ preds => preds
-  | summarize _ _ _ vals _ => vals
+  | summarize _ _ _ vals _ _ => vals
   | arrange _ _ ords => ords.map (·.1)
   | groupBy _ _ cols _ => cols.map (fun c => .col c.1 c.2.dtype c.2.ftype)
   | join _ _ _ on _ => [on]
@@ -113,13 +115,14 @@ def ofSource (id : NodeId) (cols : List (String × Uid × Dtype)) (b : Backend) 
 
 def mapUidWith (m : List (Uid × Uid)) (u : Uid) : Uid := ((m.find? (·.1 == u)).map (·.2)).getD u
 
-/-- ftype recorded for a new column: `val.ftype(agg_is_window=True)` in mutate, the cached
-    `ftype(agg_is_window=False)` in summarize; a typing error cannot occur here because the verb
-    front end has already type-checked the expression (it is mapped to element-wise). -/
-def colMetaOf (aiw : Bool) (name : String) (e : Expr) : ColMeta :=
-  { name := name
-    dtype := (match typeOf e with | .ok t => t | .error _ => .null)
-    ftype := (match ftypeOf aiw e with | .ok f => f | .error _ => .elementWise) }
+/-- dtype / ftype cached on an expression root when the verb is called
+    (`res.dtype()`, `res.ftype(agg_is_window=…)` at the end of `preprocess_arg`).  `Cache.update`
+    later reads these cached values — also after `check_subquery` has re-bound the column leaves,
+    which leaves them stale (finding D50).  A typing error cannot occur here because the verb
+    front end has already type-checked the expression. -/
+def rootMeta (aiw : Bool) (e : Expr) : Dtype × Ftype :=
+  ((match typeOf e with | .ok t => t | .error _ => .null),
+   (match ftypeOf aiw e with | .ok f => f | .error _ => .elementWise))
 
 /-- `Cache.update(node, right_cache=…)`; `self` is the cache of `node.child` -/
 def update (self : Cache) (node : Ast) (right : Option Cache := none) : Cache :=
@@ -140,22 +143,22 @@ def update (self : Cache) (node : Ast) (right : Option Cache := none) : Cache :=
         let n2u := dictOf (self.nameToUuid.map (fun e =>
           (match m.find? (·.1 == e.1) with | some (_, nn) => nn | none => e.1, e.2)))
         { self with nameToUuid := n2u, uuidToName := invert n2u }
-    | .mutate _ _ names vals uuids =>
-        let newCols := (names.zip (vals.zip uuids)).map (fun nvu =>
-          (nvu.2.2, colMetaOf true nvu.1 nvu.2.1))
+    | .mutate _ _ names _ uuids metas =>
+        let newCols := (names.zip (metas.zip uuids)).map (fun nvu =>
+          (nvu.2.2, (⟨nvu.1, nvu.2.1.1, nvu.2.1.2⟩ : ColMeta)))
         let n2u := dictUnion (self.nameToUuid.filter (fun e => !names.contains e.1)) (names.zip uuids)
         { self with cols := dictUnion self.cols newCols, nameToUuid := n2u, uuidToName := invert n2u }
     | .filter .. => { self with isFiltered := true }
     | .groupBy _ _ cols add =>
         { self with partitionBy := if add then self.partitionBy ++ cols.map (·.1) else cols.map (·.1) }
     | .ungroup .. => { self with partitionBy := [] }
-    | .summarize _ _ names vals uuids =>
+    | .summarize _ _ names _ uuids metas =>
         let kept : List (String × Uid × ColMeta) := self.partitionBy.filterMap (fun u =>
           match self.lookupUid u, self.col? u with
           | some n, some m => if names.contains n then none else some (n, u, m)
           | _, _ => none)
-        let new : List (String × Uid × ColMeta) := (names.zip (vals.zip uuids)).map (fun nvu =>
-          (nvu.1, nvu.2.2, colMetaOf false nvu.1 nvu.2.1))
+        let new : List (String × Uid × ColMeta) := (names.zip (metas.zip uuids)).map (fun nvu =>
+          (nvu.1, nvu.2.2, (⟨nvu.1, nvu.2.1.1, nvu.2.1.2⟩ : ColMeta)))
         let all := dictOf ((kept ++ new).map (fun e => (e.1, (e.2.1, e.2.2))))
         let n2u := all.map (fun e => (e.1, e.2.1))
         { self with
